@@ -1,6 +1,7 @@
 (* The reference executor: the formal meaning of "the stream is carried out literally by a solver".
    It is the executor of tests/test_validity.py made total, with every failed requirement a named error,
-   plus the requirements the property texts add (marked (+)). *)
+   plus the requirements the property texts add (marked (+)).
+   Shape: exec = check (first failing requirement, in a fixed order) ; apply (total state update). *)
 From Coq Require Import ZArith List Bool.
 Require Import Actions.
 Import ListNotations.
@@ -12,7 +13,7 @@ Definition store := list (Z * cp).                      (* keyed by step; most r
 
 Inductive xerr :=
  | E_fwd_start | E_missing_cp | E_cp_not_covering | E_rev_no_deps | E_overwrite                 (* C01 *)
- | E_rev_order | E_end_fwd_early | E_end_rev_early | E_before_endfwd       (* C02 *)
+ | E_rev_order | E_end_fwd_early | E_end_rev_early | E_before_endfwd                            (* C02 *)
  | E_budget (s : storage) | E_mixed_content                                                    (* C03 *)
  | E_leftover                                                                                  (* C04 *)
  | E_load_work_nonempty | E_deps_not_last_step | E_overshoot | E_deps_many                     (* C12 *)
@@ -21,12 +22,14 @@ Inductive xerr :=
 Record xparams := { xN : Z;                               (* the true number of steps *)
                     keep_all_deps : bool;                 (* SingleMemoryStorageSchedule exemption of C12 *)
                     budget_ram : option Z; budget_disk : option Z }.
+Record counters := { fwd_total : Z; ram_peak : Z; disk_peak : Z; disk_writes : Z; disk_reads : Z }.
 Record xstate := { fwd : option Z; w_ics : option range; w_deps : option range;
                    ram : store; disk : store; rr : Z; seen_endfwd : bool; passes : Z;
                    ram0 : list Z; disk0 : list Z;         (* keys held at EndForward *)
-                   fwd_total : Z; ram_peak : Z; disk_peak : Z; disk_writes : Z; disk_reads : Z }.
+                   cnt : counters }.
+Definition c0 := {| fwd_total := 0; ram_peak := 0; disk_peak := 0; disk_writes := 0; disk_reads := 0 |}.
 Definition x0 : xstate := {| fwd := Some 0; w_ics := None; w_deps := None; ram := []; disk := []; rr := 0; seen_endfwd := false;
-   passes := 0; ram0 := []; disk0 := []; fwd_total := 0; ram_peak := 0; disk_peak := 0; disk_writes := 0; disk_reads := 0 |}.
+   passes := 0; ram0 := []; disk0 := []; cnt := c0 |}.
 
 Fixpoint lookup (k : Z) (l : store) : option cp := match l with [] => None | (k', v) :: r => if k =? k' then Some v else lookup k r end.
 Fixpoint remove (k : Z) (l : store) : store := match l with [] => [] | (k', v) :: r => if k =? k' then r else (k', v) :: remove k r end.
@@ -36,99 +39,122 @@ Definition keys (l : store) : list Z := map fst l.
 Fixpoint insert_sorted (k : Z) (l : list Z) := match l with [] => [k] | x :: r => if k <=? x then k :: l else x :: insert_sorted k r end.
 Definition sort_keys (l : list Z) := fold_right insert_sorted [] l.
 Fixpoint zlist_eqb (a b : list Z) := match a, b with [], [] => true | x :: r, y :: s => (x =? y) && zlist_eqb r s | _, _ => false end.
-Definition over (b : option Z) (l : store) := match b with Some m => m <? len l | None => false end.
+Definition within (b : option Z) (n : Z) := match b with Some m => n <=? m | None => true end.
 Definition wlen (o : option range) := match o with Some (a, b) => b - a | None => 0 end.
+Definition sel (x : xstate) (s : storage) : store := match s with RAM => ram x | DISK => disk x | _ => [] end.
+Definition budget (p : xparams) (s : storage) : option Z := match s with RAM => budget_ram p | DISK => budget_disk p | _ => None end.
 
-Definition put (p : xparams) (x : xstate) (sg : storage) (k : Z) (c : cp) (fw : option Z) (wi wd : option range) (adv : Z)
-  : xstate + xerr :=
-  match sg with
-  | RAM => if negb (isnone (lookup k (ram x))) then inr E_overwrite else
-           let r' := (k, c) :: ram x in
-           if over (budget_ram p) r' then inr (E_budget RAM) else
-           inl {| fwd := fw; w_ics := wi; w_deps := wd; ram := r'; disk := disk x; rr := rr x; seen_endfwd := seen_endfwd x;
-                  passes := passes x; ram0 := ram0 x; disk0 := disk0 x; fwd_total := fwd_total x + adv;
-                  ram_peak := Z.max (ram_peak x) (len r'); disk_peak := disk_peak x; disk_writes := disk_writes x; disk_reads := disk_reads x |}
-  | DISK => if negb (isnone (lookup k (disk x))) then inr E_overwrite else
-           let d' := (k, c) :: disk x in
-           if over (budget_disk p) d' then inr (E_budget DISK) else
-           inl {| fwd := fw; w_ics := wi; w_deps := wd; ram := ram x; disk := d'; rr := rr x; seen_endfwd := seen_endfwd x;
-                  passes := passes x; ram0 := ram0 x; disk0 := disk0 x; fwd_total := fwd_total x + adv;
-                  ram_peak := ram_peak x; disk_peak := Z.max (disk_peak x) (len d'); disk_writes := disk_writes x + 1; disk_reads := disk_reads x |}
-  | _ => inl {| fwd := fw; w_ics := wi; w_deps := wd; ram := ram x; disk := disk x; rr := rr x; seen_endfwd := seen_endfwd x;
-                  passes := passes x; ram0 := ram0 x; disk0 := disk0 x; fwd_total := fwd_total x + adv;
-                  ram_peak := ram_peak x; disk_peak := disk_peak x; disk_writes := disk_writes x; disk_reads := disk_reads x |}
-  end.
+(* ---- state updates ---- *)
+Definition set_work (x : xstate) (f : option Z) (wi wd : option range) : xstate :=
+  {| fwd := f; w_ics := wi; w_deps := wd; ram := ram x; disk := disk x; rr := rr x; seen_endfwd := seen_endfwd x;
+     passes := passes x; ram0 := ram0 x; disk0 := disk0 x; cnt := cnt x |}.
+Definition set_store (x : xstate) (s : storage) (l : store) : xstate :=
+  {| fwd := fwd x; w_ics := w_ics x; w_deps := w_deps x;
+     ram := match s with RAM => l | _ => ram x end; disk := match s with DISK => l | _ => disk x end;
+     rr := rr x; seen_endfwd := seen_endfwd x; passes := passes x; ram0 := ram0 x; disk0 := disk0 x; cnt := cnt x |}.
+Definition set_rr (x : xstate) (r : Z) (wd : option range) : xstate :=
+  {| fwd := fwd x; w_ics := w_ics x; w_deps := wd; ram := ram x; disk := disk x; rr := r; seen_endfwd := seen_endfwd x;
+     passes := passes x; ram0 := ram0 x; disk0 := disk0 x; cnt := cnt x |}.
+Definition set_cnt (x : xstate) (c : counters) : xstate :=
+  {| fwd := fwd x; w_ics := w_ics x; w_deps := w_deps x; ram := ram x; disk := disk x; rr := rr x; seen_endfwd := seen_endfwd x;
+     passes := passes x; ram0 := ram0 x; disk0 := disk0 x; cnt := c |}.
+Definition count_put (c : counters) (s : storage) (n : Z) : counters :=
+  match s with
+  | RAM => {| fwd_total := fwd_total c; ram_peak := Z.max (ram_peak c) n; disk_peak := disk_peak c; disk_writes := disk_writes c; disk_reads := disk_reads c |}
+  | DISK => {| fwd_total := fwd_total c; ram_peak := ram_peak c; disk_peak := Z.max (disk_peak c) n; disk_writes := disk_writes c + 1; disk_reads := disk_reads c |}
+  | _ => c end.
+Definition count_fwd (c : counters) (adv : Z) : counters :=
+  {| fwd_total := fwd_total c + adv; ram_peak := ram_peak c; disk_peak := disk_peak c; disk_writes := disk_writes c; disk_reads := disk_reads c |}.
+Definition count_read (c : counters) (s : storage) : counters :=
+  match s with DISK => {| fwd_total := fwd_total c; ram_peak := ram_peak c; disk_peak := disk_peak c; disk_writes := disk_writes c; disk_reads := disk_reads c + 1 |}
+  | _ => c end.
+(* store checkpoint c under key k in storage s (RAM/DISK; other storages: nothing is stored) *)
+Definition put (x : xstate) (s : storage) (k : Z) (c : cp) : xstate :=
+  if is_cp s then set_cnt (set_store x s ((k, c) :: sel x s)) (count_put (cnt x) s (len (sel x s) + 1)) else x.
+
+(* ---- requirements, in the order in which they are checked ---- *)
+Definition chk (b : bool) (e : xerr) : option xerr := if b then None else Some e.
+Fixpoint first_err (l : list (option xerr)) : option xerr :=
+  match l with [] => None | Some e :: _ => Some e | None :: r => first_err r end.
+Definition fwd_is (x : xstate) (n : Z) := match fwd x with Some f => f =? n | None => false end.
+Definition can_put (p : xparams) (x : xstate) (s : storage) (k : Z) : list (option xerr) :=
+  if is_cp s then [chk (isnone (lookup k (sel x s))) E_overwrite; chk (within (budget p s) (len (sel x s) + 1)) (E_budget s)] else [].
 
 (* known = the schedule's max_n is known when the action is carried out; exhausted = the schedule reports exhaustion
-   (read after the action was emitted, as a client does) *)
-Definition exec (p : xparams) (known exhausted : bool) (x : xstate) (a : action) : xstate + xerr :=
+   (both read after the action was emitted, as a client does) *)
+Definition check (p : xparams) (known exhausted : bool) (x : xstate) (a : action) : option xerr :=
   let N := xN p in
   match a with
   | Forward n0 n1 wi wa sg =>
-    if negb ((0 <=? n0) && (n0 <? n1)) then inr E_malformed else
-    if (is_cp sg && negb (wi || wa)) || (st_eqb sg NONE && (wi || wa)) then inr E_malformed else
-    match fwd x with None => inr E_fwd_start | Some f =>
-    if negb (f =? n0) then inr E_fwd_start else
-    if known && negb (n1 <=? N - rr x) then inr E_overshoot else
     let n1' := Z.min n1 N in
-    if n1' <=? n0 then inr E_overshoot else
-    match sg with
-    | RAM | DISK =>
-      if wi && wa then inr E_mixed_content else                                                 (* (+) *)
-      if wa && negb (n1' =? n0 + 1) then inr E_mixed_content else                               (* (+) one step's dependencies *)
-      put p x sg n0 {| cp_ics := if wi then Some (n0, n1') else None; cp_deps := if wa then Some (n0, n1') else None |}
-          (Some n1') None None (n1' - n0)
-    | WORK =>
-      if wa && negb (keep_all_deps p) && negb ((n1' =? n0 + 1) && (n1' =? N - rr x)) then inr E_deps_not_last_step else  (* (+) *)
-      put p x WORK n0 {| cp_ics := None; cp_deps := None |} (Some n1')
-          (if wi then Some (n0, n1') else None) (if wa then Some (n0, n1') else None) (n1' - n0)
-    | NONE => put p x NONE n0 {| cp_ics := None; cp_deps := None |} (Some n1') None None (n1' - n0)
-    end end
-  | Reverse n1 n0 clear =>
-    if negb ((0 <=? n0) && (n0 <? n1)) then inr E_malformed else
-    if negb (seen_endfwd x) then inr E_before_endfwd else
-    if negb (n1 =? N - rr x) then inr E_rev_order else
-    if negb (covers (w_deps x) n0 n1) then inr E_rev_no_deps else
-    inl {| fwd := fwd x; w_ics := w_ics x; w_deps := if clear then None else w_deps x; ram := ram x; disk := disk x;
-           rr := rr x + (n1 - n0); seen_endfwd := true; passes := passes x; ram0 := ram0 x; disk0 := disk0 x;
-           fwd_total := fwd_total x; ram_peak := ram_peak x; disk_peak := disk_peak x; disk_writes := disk_writes x; disk_reads := disk_reads x |}
+    first_err ([ chk ((0 <=? n0) && (n0 <? n1)) E_malformed;
+                 chk (negb ((is_cp sg && negb (wi || wa)) || (st_eqb sg NONE && (wi || wa)))) E_malformed;
+                 chk (fwd_is x n0) E_fwd_start;
+                 chk (negb known || (n1 <=? N - rr x)) E_overshoot;
+                 chk (n0 <? n1') E_overshoot;
+                 chk (negb (is_cp sg && wi && wa)) E_mixed_content;                                        (* (+) *)
+                 chk (negb (is_cp sg && wa && negb (n1' =? n0 + 1))) E_mixed_content;                      (* (+) one step's dependencies *)
+                 chk (negb (st_eqb sg WORK && wa && negb (keep_all_deps p) && negb ((n1' =? n0 + 1) && (n1' =? N - rr x))))
+                     E_deps_not_last_step ]                                                                (* (+) *)
+               ++ can_put p x sg n0)
+  | Reverse n1 n0 _ =>
+    first_err [ chk ((0 <=? n0) && (n0 <? n1)) E_malformed;
+                chk (seen_endfwd x) E_before_endfwd;
+                chk (n1 =? N - rr x) E_rev_order;
+                chk (covers (w_deps x) n0 n1) E_rev_no_deps ]
   | Copy n src dst | Move n src dst =>
-    if negb (is_cp src) || negb (0 <=? n) then inr E_malformed else
-    if negb (seen_endfwd x) then inr E_before_endfwd else
-    if negb (isnone (w_ics x) && isnone (w_deps x)) then inr E_load_work_nonempty else
-    let src_store := match src with RAM => ram x | _ => disk x end in
-    match lookup n src_store with None => inr E_missing_cp | Some c =>
-    if negb (n <? N - rr x) then inr E_cp_not_covering else
     let is_move := match a with Move _ _ _ => true | _ => false end in
-    let x1 := {| fwd := fwd x; w_ics := w_ics x; w_deps := w_deps x;
-                 ram := match src with RAM => if is_move then remove n (ram x) else ram x | _ => ram x end;
-                 disk := match src with DISK => if is_move then remove n (disk x) else disk x | _ => disk x end;
-                 rr := rr x; seen_endfwd := true; passes := passes x; ram0 := ram0 x; disk0 := disk0 x; fwd_total := fwd_total x;
-                 ram_peak := ram_peak x; disk_peak := disk_peak x; disk_writes := disk_writes x;
-                 disk_reads := disk_reads x + (match src with DISK => 1 | _ => 0 end) |} in
-    match dst with
-    | WORK =>
-      let restart := match cp_ics c with Some (a0, b0) => (a0 <=? n) && (n <? b0) | None => false end in
-      if restart && negb (covers (cp_ics c) n (N - rr x)) then inr E_cp_not_covering else
-      if negb (keep_all_deps p) && (1 <? wlen (cp_deps c)) then inr E_deps_many else
-      put p x1 WORK n c (if restart then Some n else None) (cp_ics c) (cp_deps c) 0
-    | RAM | DISK => put p x1 dst n c (fwd x) None None 0
-    | NONE => inl x1
-    end end
+    first_err ([ chk (is_cp src && (0 <=? n)) E_malformed;
+                 chk (seen_endfwd x) E_before_endfwd;
+                 chk (isnone (w_ics x) && isnone (w_deps x)) E_load_work_nonempty;
+                 chk (negb (isnone (lookup n (sel x src)))) E_missing_cp;
+                 chk (n <? N - rr x) E_cp_not_covering ]
+               ++ match lookup n (sel x src), dst with
+                  | Some c, WORK =>
+                    let restart := match cp_ics c with Some (a0, b0) => (a0 <=? n) && (n <? b0) | None => false end in
+                    [ chk (negb restart || covers (cp_ics c) n (N - rr x)) E_cp_not_covering;
+                      chk (keep_all_deps p || (wlen (cp_deps c) <=? 1)) E_deps_many ]
+                  | Some c, _ => can_put p (if is_move then set_store x src (remove n (sel x src)) else x) dst n
+                  | None, _ => [] end)
   | EndForward =>
-    if seen_endfwd x then inr E_end_fwd_early else
-    match fwd x with Some f =>
-      if negb (f =? N) then inr E_end_fwd_early else
-      inl {| fwd := fwd x; w_ics := w_ics x; w_deps := w_deps x; ram := ram x; disk := disk x; rr := rr x; seen_endfwd := true;
-             passes := passes x; ram0 := sort_keys (keys (ram x)); disk0 := sort_keys (keys (disk x)); fwd_total := fwd_total x;
-             ram_peak := ram_peak x; disk_peak := disk_peak x; disk_writes := disk_writes x; disk_reads := disk_reads x |}
-    | None => inr E_end_fwd_early end
+    first_err [ chk (negb (seen_endfwd x)) E_end_fwd_early; chk (fwd_is x N) E_end_fwd_early ]
   | EndReverse =>
-    if negb (seen_endfwd x) then inr E_before_endfwd else
-    if negb (rr x =? N) then inr E_end_rev_early else
-    if exhausted && negb (match ram x, disk x with [], [] => true | _, _ => false end) then inr E_leftover else
-    if negb exhausted && negb (zlist_eqb (sort_keys (keys (ram x))) (ram0 x) && zlist_eqb (sort_keys (keys (disk x))) (disk0 x)) then inr E_leftover else
-    inl {| fwd := fwd x; w_ics := w_ics x; w_deps := w_deps x; ram := ram x; disk := disk x; rr := if exhausted then rr x else 0;
-           seen_endfwd := true; passes := passes x + 1; ram0 := ram0 x; disk0 := disk0 x; fwd_total := fwd_total x;
-           ram_peak := ram_peak x; disk_peak := disk_peak x; disk_writes := disk_writes x; disk_reads := disk_reads x |}
+    first_err [ chk (seen_endfwd x) E_before_endfwd;
+                chk (rr x =? N) E_end_rev_early;
+                chk (if exhausted then match ram x, disk x with [], [] => true | _, _ => false end
+                     else zlist_eqb (sort_keys (keys (ram x))) (ram0 x) && zlist_eqb (sort_keys (keys (disk x))) (disk0 x)) E_leftover ]
   end.
+
+Definition apply (p : xparams) (exhausted : bool) (x : xstate) (a : action) : xstate :=
+  let N := xN p in
+  match a with
+  | Forward n0 n1 wi wa sg =>
+    let n1' := Z.min n1 N in
+    let work := st_eqb sg WORK in
+    let x1 := set_work x (Some n1') (if work && wi then Some (n0, n1') else None) (if work && wa then Some (n0, n1') else None) in
+    let x2 := put x1 sg n0 {| cp_ics := if wi then Some (n0, n1') else None; cp_deps := if wa then Some (n0, n1') else None |} in
+    set_cnt x2 (count_fwd (cnt x2) (n1' - n0))
+  | Reverse n1 n0 clear => set_rr x (rr x + (n1 - n0)) (if clear then None else w_deps x)
+  | Copy n src dst | Move n src dst =>
+    let is_move := match a with Move _ _ _ => true | _ => false end in
+    match lookup n (sel x src) with
+    | None => x
+    | Some c =>
+      let x1 := if is_move then set_store x src (remove n (sel x src)) else x in
+      let x2 := set_cnt x1 (count_read (cnt x1) src) in
+      match dst with
+      | WORK => let restart := match cp_ics c with Some (a0, b0) => (a0 <=? n) && (n <? b0) | None => false end in
+                set_work x2 (if restart then Some n else None) (cp_ics c) (cp_deps c)
+      | _ => put x2 dst n c
+      end
+    end
+  | EndForward =>
+    {| fwd := fwd x; w_ics := w_ics x; w_deps := w_deps x; ram := ram x; disk := disk x; rr := rr x; seen_endfwd := true;
+       passes := passes x; ram0 := sort_keys (keys (ram x)); disk0 := sort_keys (keys (disk x)); cnt := cnt x |}
+  | EndReverse =>
+    {| fwd := fwd x; w_ics := w_ics x; w_deps := w_deps x; ram := ram x; disk := disk x; rr := if exhausted then rr x else 0;
+       seen_endfwd := seen_endfwd x; passes := passes x + 1; ram0 := ram0 x; disk0 := disk0 x; cnt := cnt x |}
+  end.
+
+Definition exec (p : xparams) (known exhausted : bool) (x : xstate) (a : action) : xstate + xerr :=
+  match check p known exhausted x a with Some e => inr e | None => inl (apply p exhausted x a) end.
